@@ -32,8 +32,12 @@ def classify(component, what, case):
     """A failing case is an instance of a known finding only if it has exactly that finding's mechanism."""
     if case.get("crash") and component == "compile":
         err = case.get("stderr", "")
-        if ("schema_compile_node.c" in what and "member access within null pointer of type 'struct lysc_type'" in what) or \
-                ("SEGV" in what and "lys_compile_type" in err):
+        # UBSan: "schema_compile_node.c:<line>: runtime error: member access within null pointer of type 'struct lysc_type'"
+        # (for a deep stack only the SUMMARY line and the outer frames survive in the kept tail of stderr)
+        if "schema_compile_node.c:" in what and ("null pointer of type 'struct lysc_type'" in what or
+                                                  ("undefined-behavior" in what and "lys_compile_node_type" in err)):
+            return "F54"
+        if "SEGV" in what and "lys_compile_type" in err:
             return "F54"
         return None
     if case.get("crash"):
